@@ -36,6 +36,7 @@ ASSUMPTIONS = ["pvm/ref/inet.py implements RFC 1071 and the pseudo-headers",
 REQUIRED = ["built", "fields_compared", "repacked", "ipv4_csums", "l4_csums",
             "icmp_csums", "odd_payloads", "even_payloads", "corpus_roundtrips",
             "ip_payloads_shorter_than_their_protocol_header",
+            "template_frames_roundtripped",
             "earlier_packets_rechecked",
             "v6_csums"]
 TIMEOUT = {"quick": 900, "thorough": 7200}
@@ -578,7 +579,7 @@ def run_corpus (case, rep):
          traceback.format_exc()[-500:]); return
   rep.count("corpus_roundtrips")
   la, _ = chain(q)
-  want = corpus.EXPECTED_LAYERS.get(name)
+  want = case.get("layers") or corpus.EXPECTED_LAYERS.get(name)
   got = ">".join(type(x).__name__ for x in la)
   if want is not None:
     rep.count("corpus_layer_chains_compared")
@@ -610,6 +611,9 @@ def run_corpus (case, rep):
   q2 = pkt.ethernet(raw=b2)
   compare_chains(fire, q, q2, label)
   verify_bytes(fire, rep, b2, label)
+  if case.get("template"):
+    rep.count("template_frames_roundtripped")
+    return b
   # every corpus packet parsed so far (q2 may share state with them)
   for lab in sorted(_alive):
     if lab.startswith("corpus:"): recheck_alive(rep, lab, case)
@@ -668,9 +672,11 @@ def do_case (case, rep):
 def plan (tier, seed):
   if tier == "quick":
     return ([dict(mode="built", per=400, sub=i) for i in range(14)] +
-            [dict(mode="corpus", sub=0)])
+            [dict(mode="corpus", sub=0)] +
+            [dict(mode="template", per=600, sub=i) for i in range(2)])
   return ([dict(mode="built", per=9000, sub=i) for i in range(64)] +
-          [dict(mode="corpus", sub=0)])
+          [dict(mode="corpus", sub=0)] +
+          [dict(mode="template", per=40000, sub=i) for i in range(16)])
 
 
 def run (spec, rep):
@@ -678,6 +684,15 @@ def run (spec, rep):
     for name, raw in corpus.build():
       if name in CORPUS_SKIP: continue
       do_case(dict(mode="corpus", name=name, frame=raw), rep)
+    return
+  if spec["mode"] == "template":
+    # the corpus-only protocols with their variable parts drawn per case
+    rng = random.Random("c14/template/%d/%d" % (spec["seed"], spec["sub"]))
+    for i in range(spec["per"]):
+      for t in corpus.TEMPLATES:
+        fam, raw = t(rng)
+        do_case(dict(mode="corpus", name="t:" + fam, frame=raw, template=True,
+                     layers=corpus.FAMILY_LAYERS[fam]), rep)
     return
   first = True
   for k in KINDS:
